@@ -100,11 +100,11 @@ fn project_code(full: &Ev, cm: &Mask) -> Ev {
 				let any_flag = if *slot == "line_number_table" { wanted(0) } else { wanted(1) || wanted(2) };
 				let all_flags = if *slot == "line_number_table" { wanted(0) } else { wanted(1) && wanted(2) };
 				if !any_flag { None }
+				// a visitor interested in everything the table holds is told about the table even when it has no entries ...
 				else if all_flags { Some(e.clone()) }
-				else if kept.len() == items.len() && !items.is_empty() { Some(Ev::Deferred { slot, items: kept, optional: false, rows }) }
-				// nothing of the wanted kind in the full table: the attribute of that kind is absent (no visit) or empty (visit of an empty table)
-				else if kept.is_empty() { Some(Ev::Deferred { slot, items: kept, optional: true, rows }) }
-				else { Some(Ev::Deferred { slot, items: kept, optional: false, rows }) }
+				// ... a visitor interested in one of the two kinds of entries exactly when there is an entry for it
+				else if kept.is_empty() { None }
+				else { Some(Ev::Deferred { slot, items: kept, rows }) }
 			}
 			_ => Some(e.clone()),
 		}).collect(),
@@ -170,7 +170,6 @@ fn evs_match(got: &[Ev], want: &[Ev]) -> bool {
 	let (mut i, mut j) = (0, 0);
 	while j < want.len() {
 		if i < got.len() && ev_matches(&got[i], &want[j]) { i += 1; j += 1; }
-		else if matches!(&want[j], Ev::Deferred { optional: true, .. }) { j += 1; }
 		else { return false; }
 	}
 	i == got.len()
@@ -257,8 +256,17 @@ fn g_rows(rows: &[RowN], pcs: &MethodPcs) -> String {
 /// `pcs`: the methods of the class the trace belongs to; `cur`: the method the events belong to (None at class / field level)
 fn g_ev(e: &Ev, cur: &MethodPcs) -> String {
 	match e {
-		Ev::Attr { name, raw: None, val, .. } => match KNOWN_NAMES.iter().position(|n| n == name) {
+		Ev::Attr { name, raw: None, val, cval, .. } => match KNOWN_NAMES.iter().position(|n| n == name) {
 			Some(i) if !val.is_empty() => format!("KV {i} {}", gnums(val.iter().copied())),
+			// a value that speaks of labels: bytecode offsets through the instruction offsets of the method at hand; not compared when a label cannot be placed
+			Some(i) if !cval.is_empty() => match cval.iter().map(|v| match v {
+					values::ValN::N(x) => Some(*x),
+					values::ValN::At(p) => pc_of(p, cur),
+					values::ValN::Len(a, b) => match (pc_of(a, cur), pc_of(b, cur)) { (Some(x), Some(y)) if y >= x => Some(y - x), _ => None },
+				}).collect::<Option<Vec<u64>>>() {
+				Some(nums) => format!("KV {i} {}", gnums(nums.into_iter())),
+				None => format!("K {i}"),
+			},
 			Some(i) => format!("K {i}"),
 			None => format!("EAttr {} false []", gstr(&cps_str(name))),
 		},
@@ -417,19 +425,17 @@ fn hex(b: &[u8]) -> String { b.iter().map(|x| format!("{x:02x}")).collect() }
 const ANNOTATION_ATTRS: [&str; 4] = ["RuntimeVisibleAnnotations", "RuntimeInvisibleAnnotations", "RuntimeVisibleTypeAnnotations", "RuntimeInvisibleTypeAnnotations"];
 
 /// multiset view of a trace: the replay visits attributes in a fixed order, the reader in file order.
-/// `relax_a`: an annotations visit without annotations is dropped (the tree cannot hold it: known finding F20a);
-/// `relax_b`: a visit of an empty local-variable table is dropped (the tree cannot tell which of LocalVariableTable /
-/// LocalVariableTypeTable an empty table came from: known finding F20b).  Returns the view and whether anything was dropped.
-fn sorted_dbg(es: &[Ev], relax_a: bool, relax_b: bool, dropped: &mut (bool, bool)) -> Vec<String> {
+/// `relax_a`: an annotations visit without annotations is dropped (the tree cannot hold it: known finding F20a).
+/// Returns the view and whether anything was dropped.  (A visit of a local-variable table without entries is NOT relaxed:
+/// since the reader and Code::accept follow one rule for it — former finding F20b — it must agree like everything else.)
+fn sorted_dbg(es: &[Ev], relax_a: bool, dropped: &mut bool) -> Vec<String> {
 	let mut v: Vec<String> = es.iter().map(|e| match e {
-		Ev::Method { hdr, es } => format!("Method {hdr} {:?}", es.as_ref().map(|e| sorted_dbg(e, relax_a, relax_b, dropped))),
-		Ev::Field { hdr, es } => format!("Field {hdr} {:?}", es.as_ref().map(|e| sorted_dbg(e, relax_a, relax_b, dropped))),
-		Ev::Rc { hdr, es } => format!("Rc {hdr} {:?}", es.as_ref().map(|e| sorted_dbg(e, relax_a, relax_b, dropped))),
+		Ev::Method { hdr, es } => format!("Method {hdr} {:?}", es.as_ref().map(|e| sorted_dbg(e, relax_a, dropped))),
+		Ev::Field { hdr, es } => format!("Field {hdr} {:?}", es.as_ref().map(|e| sorted_dbg(e, relax_a, dropped))),
+		Ev::Rc { hdr, es } => format!("Rc {hdr} {:?}", es.as_ref().map(|e| sorted_dbg(e, relax_a, dropped))),
 		// labels that nothing delivered refers to may or may not be attached (the tree keeps those of the full read)
-		Ev::Code { max_stack, max_locals, insns, exc, es, .. } => format!("Code {max_stack} {max_locals} {:?} {exc} {:?}", insns.iter().map(|i| (&i.frame, &i.text)).collect::<Vec<_>>(), sorted_dbg(es, relax_a, relax_b, dropped)),
-		Ev::Deferred { slot, items, .. } if relax_b && items.is_empty() && *slot == "local_variable_table" => { dropped.1 = true; String::new() }
-		Ev::Attr { name, raw: None, content, .. } if relax_a && content == "[]" && ANNOTATION_ATTRS.contains(&name.as_str()) => { dropped.0 = true; String::new() }
-		// `optional` is an annotation of the projection oracle, not part of the event
+		Ev::Code { max_stack, max_locals, insns, exc, es, .. } => format!("Code {max_stack} {max_locals} {:?} {exc} {:?}", insns.iter().map(|i| (&i.frame, &i.text)).collect::<Vec<_>>(), sorted_dbg(es, relax_a, dropped)),
+		Ev::Attr { name, raw: None, content, .. } if relax_a && content == "[]" && ANNOTATION_ATTRS.contains(&name.as_str()) => { *dropped = true; String::new() }
 		Ev::Deferred { slot, items, .. } => format!("Deferred {slot} {items:?}"),
 		e => format!("{e:?}"),
 	}).filter(|s| !s.is_empty()).collect();
@@ -441,18 +447,16 @@ fn sorted_dbg(es: &[Ev], relax_a: bool, relax_b: bool, dropped: &mut (bool, bool
 	v
 }
 
-enum ReplayCmp { Same, Known(bool, bool), Differ(String) }
+enum ReplayCmp { Same, KnownA, Differ(String) }
 
 /// replayed trace against the trace of reading the bytes with the same visitor
 fn compare_replay(got: &Option<Vec<Ev>>, read: &Option<Vec<Ev>>) -> ReplayCmp {
-	let view = |t: &Option<Vec<Ev>>, a: bool, b: bool| { let mut d = (false, false); let v = t.as_ref().map(|e| sorted_dbg(e, a, b, &mut d)); (v, d) };
-	if view(got, false, false).0 == view(read, false, false).0 { return ReplayCmp::Same; }
-	// the narrowest relaxation that explains the difference
-	for (a, b) in [(true, false), (false, true), (true, true)] {
-		let ((x, dx), (y, dy)) = (view(got, a, b), view(read, a, b));
-		if x == y && ((a && (dx.0 || dy.0)) || (b && (dx.1 || dy.1))) { return ReplayCmp::Known(a, b); }
-	}
-	let (x, y) = (view(got, false, false).0.unwrap_or_default(), view(read, false, false).0.unwrap_or_default());
+	let view = |t: &Option<Vec<Ev>>, a: bool| { let mut d = false; let v = t.as_ref().map(|e| sorted_dbg(e, a, &mut d)); (v, d) };
+	if view(got, false).0 == view(read, false).0 { return ReplayCmp::Same; }
+	// the one relaxation that may explain the difference
+	let ((x, dx), (y, dy)) = (view(got, true), view(read, true));
+	if x == y && (dx || dy) { return ReplayCmp::KnownA; }
+	let (x, y) = (view(got, false).0.unwrap_or_default(), view(read, false).0.unwrap_or_default());
 	let diff = x.iter().zip(&y).find(|(p, q)| p != q).map(|(p, q)| { let k = p.bytes().zip(q.bytes()).take_while(|(u, w)| u == w).count().saturating_sub(60); format!("replay: …{}\nread:   …{}", clip(p, k, k + 400), clip(q, k, k + 400)) }).unwrap_or_else(|| format!("{} vs {} events", x.len(), y.len()));
 	ReplayCmp::Differ(diff)
 }
@@ -465,11 +469,9 @@ fn finding_listed(id: &str) -> bool {
 	j["findings"].as_array().map(|a| a.iter().any(|f| f["id"] == id && f["property"] == "C17" && f["status"].as_str().unwrap_or("open") == "open")).unwrap_or(false)
 }
 const F20A: &str = "F20a replaying a tree does not deliver an annotations attribute that has no annotations (the tree keeps annotation lists as plain Vec)";
-const F20B: &str = "F20b replaying a tree into a visitor interested in only one of local_variable_table / local_variable_type_table visits (or omits) an empty table where reading the bytes does not (the tree keeps one Option<Vec<Lv>> for both attributes)";
 
-fn report_known(r: &mut Report, a: bool, b: bool, cb_name: &str, cfg: &str) {
-	for (on, text) in [(a, F20A), (b, F20B)] {
-		if !on { continue; }
+fn report_known(r: &mut Report, cb_name: &str, cfg: &str) {
+	for text in [F20A] {
 		let id = text.split(' ').next().unwrap();
 		// the class files of corpus/C17/replay are the witnesses of the Coq refutation theorems (Theory14.v), byte for byte
 		if let Some(rest) = cb_name.strip_prefix("/verif/corpus/C17/replay/") { r.count(&format!("coq_witness_reproduced:{id}:{rest}")); }
@@ -496,9 +498,9 @@ fn replay_masked(r: &mut Report, cb: &ClassBytes, shape: &Option<edge::Shape>, t
 	if shape.as_ref().map(|s| s.duplicate_merged).unwrap_or(false) { r.count("replay_outside_hypothesis:duplicate_attribute"); return Some(got); }
 	match compare_replay(&got, read_trace) {
 		ReplayCmp::Same => {}
-		ReplayCmp::Known(a, b) if shape.as_ref().map(|s| (!a || s.empty_annotations) && (!b || s.rowless_local_table)).unwrap_or(false) => report_known(r, a, b, &cb.name, &format!("{d:?}")),
-		ReplayCmp::Known(..) | ReplayCmp::Differ(_) => {
-			let diff = match compare_replay(&got, read_trace) { ReplayCmp::Differ(d) => d, _ => "differs only by empty annotation / local-variable visits, but the class file has no such attribute".into() };
+		ReplayCmp::KnownA if shape.as_ref().map(|s| s.empty_annotations).unwrap_or(false) => report_known(r, &cb.name, &format!("{d:?}")),
+		ReplayCmp::KnownA | ReplayCmp::Differ(_) => {
+			let diff = match compare_replay(&got, read_trace) { ReplayCmp::Differ(d) => d, _ => "differs only by visits of annotations attributes without annotations, but the class file has no such attribute".into() };
 			let what = format!("[{kind}] ClassFile::accept delivers other events to a masked visitor than reading the bytes does");
 			r.violation(what.clone(), format!("property C17 (replay)\nwhat: {what}\nclass file: {}\nvisitor: {d:?}\nfirst difference:\n{diff}\nbytes (hex): {}\n", cb.name, hex(&cb.bytes)));
 		}
@@ -592,7 +594,7 @@ fn g_replay_case(stream: &[u8], pcs: &[MethodPcs], tree_ok: bool, rebuilt: bool,
 fn lite_view(e: &Ev) -> Option<Ev> {
 	let Ev::Code { max_stack, max_locals, exc, es, .. } = e else { return None };
 	Some(Ev::Code { max_stack: *max_stack, max_locals: *max_locals, insns: vec![], last_label: false, exc: strip_labels(exc), exc_rows: vec![],
-		es: es.iter().filter_map(|e| match e { Ev::Deferred { slot, items, optional, .. } => Some(Ev::Deferred { slot, items: items.iter().map(|(k, t)| (*k, strip_labels(t))).collect(), optional: *optional, rows: vec![] }), _ => None }).collect() })
+		es: es.iter().filter_map(|e| match e { Ev::Deferred { slot, items, .. } => Some(Ev::Deferred { slot, items: items.iter().map(|(k, t)| (*k, strip_labels(t))).collect(), rows: vec![] }), _ => None }).collect() })
 }
 
 /// The same stream through `()` (every interest, everything voided), through a `SimpleClassVisitor` (interests = fields + methods;
@@ -825,6 +827,17 @@ fn count_value_kinds(r: &mut Report, es: &[Ev]) {
 	const KINDS: [&str; 13] = ["Byte(", "Char(", "Double(", "Float(", "Integer(", "Long(", "Short(", "Boolean(", "String(", "Enum {", "Class(", "AnnotationInterface(", "ArrayType("];
 	for e in es {
 		match e {
+			Ev::Attr { name, content, val, cval, .. } if name.ends_with("TypeAnnotations") && (!val.is_empty() || !cval.is_empty()) => {
+				r.count(&format!("value:{name}{}", if cval.is_empty() { "" } else { "@Code" }));
+				// which target types and type path kinds the compared values hold (debug text of the TargetInfo* / TypePathKind variants)
+				for t in content.split("type_reference: ").skip(1) {
+					let v: String = t.chars().take_while(|c| c.is_ascii_alphanumeric()).collect();
+					r.count(&format!("type_annotation_target:{v}"));
+				}
+				for k in ["ArrayDeeper", "NestedDeeper", "WildcardBound", "TypeArgument {"] { let n = content.matches(k).count() as u64; if n > 0 { r.count_n(&format!("type_path_kind:{}", k.trim_end_matches([' ', '{'])), n); } }
+				if content.contains("path: []") { r.count("type_path_kind:empty-path"); }
+			}
+			Ev::Code { es: x, .. } => count_value_kinds(r, x),
 			Ev::Attr { name, content, val, .. } if !val.is_empty() => {
 				r.count(&format!("value:{name}"));
 				if name != "Signature" && name != "SourceFile" {
@@ -968,7 +981,7 @@ pub fn run(ctx: &Ctx) -> anyhow::Result<Report> {
 	if std::env::var_os("C17_PANIC_TRACE").is_some() { std::panic::set_hook(Box::new(|i| eprintln!("panic: {i}"))); }
 	let mut rng = Rng::new(ctx.seed);
 	r.shard_size = 16;
-	r.rule = "streams = class files alone and random concatenations of 2..4 of them read by successive read_class_multi calls on one cursor. Class files: corpus/C17 (javac 17, --release 8 and 17, with/without -g -parameters: records, sealed classes, annotations of every element kind, type annotations, lambdas, switches, module-info), the shared corpus/classes (javac r8/r11/r17, 260 third-party and JDK classes, crafted classes with unknown attributes at every level, Synthetic, SourceDebugExtension, predefined names at foreign locations; quick tier: every third file of the javac/JDK sample), /repo's fixtures, and classes freshly generated from the seed by fbh::classfile::gen with shuffled attribute order. Per stream: full visitor, class declined, no interests, every single-bit (thorough: and all-but-one) class / method / code interest mask, decline every k-th (k=1..3) field / method / visit_code / record component, per-member ALTERNATING masks (neighbouring methods / visit_code answers of one class get different interests: all|none, code|all-but-code, single bits, period 1 and 2, with every third method declined; fields / record components alternately accepted), random per-member masks and decline choices. A rotating sixth of the configurations (and every alternating one) additionally through duke's ready-made visitors: `()` (position), a SimpleClassVisitor (interests fields + methods; projection oracle), the leanest visitor (fields Infallible, annotations / unknown attributes into (), default visit_instruction; max_stack / max_locals / exception table / line numbers / local variables against the projection), and ClassFile::accept into () and into the SimpleClassVisitor. One evaluation = one (stream, configuration) run through the real reader with the projection, position and masked-replay oracles; one correspondence case = one stream with its configurations (quick: a rotating fifth of them, thorough: two thirds) through the Coq model — event trace, stream positions, and the ROWS of every line-number / local-variable table and exception table handed to a code visitor (labels as bytecode offsets, names / descriptors / signatures by checksum against the pool entry the model's row designates; same rows, same order) — which also checks that the stream decodes to well-formed class structures (the hypothesis of the theorems). Replay: for every single-class stream the tree of duke::read_class is replayed (ClassFile::accept) into the tree builder (must give an equal tree), into the full recording visitor and into every configuration's recording visitor; oracle = the replayed trace equals the trace of reading the bytes with the same visitor (attribute-level events of one item as a multiset, members and instructions in order, contents by debug text), with the two known classes F20a (annotations attribute without annotations) and F20b (LocalVariable(Type)Table without rows) recognised by a relaxed comparison PLUS the class file actually containing such an attribute, and classes with a duplicated merged attribute counted as outside the hypothesis; one `replay-*` correspondence case per class = the recorded accept traces (quick: a rotating fifth of the configurations) against the Coq model of accept() in accept()'s own order, model tree builder succeeds iff duke's does, rebuilt tree equal. Edge inputs (stream kind `edge`): edits of generated classes and of corpus/C17 through fbh::classfile::raw — present-but-empty annotation lists at every level, empty InnerClasses / NestMembers / PermittedSubclasses / Record / Exceptions / MethodParameters, LineNumberTable / LocalVariableTable / LocalVariableTypeTable / StackMapTable without rows (alone and next to tables with rows), flags-only Deprecated / Synthetic, Signature at every level, an annotations attribute twice in one item, the ROWS of a Code's LocalVariableTable / LocalVariableTypeTable / LineNumberTable redistributed over several attributes in other orders (type table before table, one attribute per row shuffled, halves alternating, a type table between two tables; a type table synthesised where the class has none), a CLDC `StackMap` attribute with 0..3 entries in ascending / descending / mixed offset order; corpus/C17/replay/*.class are the witnesses of the Coq refutation theorems byte for byte. The CALLER's reader (stream kinds `concat*` and `decline*`: 2..4 class files, mostly small, some streams longer than 8 / 16 / 64 KiB): EVERY accept / decline pattern over the classes (declined first, last, in the middle, several in a row; accepted classes read without interests, by a random partial visitor or by the full visitor), each pattern read from a std::io::Cursor, from a Read + Seek reader written in the harness that keeps its own position from the calls it receives and counts them, and from the same reader handing out 1..5 bytes per read call; after EVERY call the position of the reader the harness owns is read again and must be the end of that class; all three readers must answer alike; the Cursor answers of every pattern go to the Coq model (positions and traces). Successive duke::read_class calls on one reader (three reader kinds) and ONE Vec<ClassFile> handed from read_class_multi call to call: each class equal to the class read alone, position behind it. The class header handed to visit_class is the same for every visitor. Parsed VALUES: for RuntimeVisible/InvisibleAnnotations (element_value trees of every kind, nested), AnnotationDefault, Signature, SourceFile and the attributes that are rows of pool indices (InnerClasses, EnclosingMethod, NestHost, NestMembers, PermittedSubclasses, ModuleMainClass, ModulePackages, Exceptions, MethodParameters) the recording visitors flatten what they were handed (duke's public Annotation / ElementValue / Object / InnerClass … values; strings as checksums, numeric constants as bits) and the Coq model parses the same value from the attribute body and the constant pool — compared on every event of every correspondence case, for reads and for replays, at class, field and method level; edge kind `annotation-values`: byte / char / short / boolean constants over WIDE int entries (narrowing), NaNs with payloads, extreme longs, empty / non-ASCII strings, empty arrays, annotations without pairs, repeated pair names, nesting 1..6 and exactly 64 deep (the reader's limit). If the full visitor cannot read more than a tenth of the streams the run reports that with the first such stream (otherwise such streams are outside the property and only counted). Non-trivial = duke reads every class of the stream with the full visitor; distinct by stream bytes.".into();
+	r.rule = "streams = class files alone and random concatenations of 2..4 of them read by successive read_class_multi calls on one cursor. Class files: corpus/C17 (javac 17, --release 8 and 17, with/without -g -parameters: records, sealed classes, annotations of every element kind, type annotations, lambdas, switches, module-info), the shared corpus/classes (javac r8/r11/r17, 260 third-party and JDK classes, crafted classes with unknown attributes at every level, Synthetic, SourceDebugExtension, predefined names at foreign locations; quick tier: every third file of the javac/JDK sample), /repo's fixtures, and classes freshly generated from the seed by fbh::classfile::gen with shuffled attribute order. Per stream: full visitor, class declined, no interests, every single-bit (thorough: and all-but-one) class / method / code interest mask, decline every k-th (k=1..3) field / method / visit_code / record component, per-member ALTERNATING masks (neighbouring methods / visit_code answers of one class get different interests: all|none, code|all-but-code, single bits, period 1 and 2, with every third method declined; fields / record components alternately accepted), random per-member masks and decline choices. A rotating sixth of the configurations (and every alternating one) additionally through duke's ready-made visitors: `()` (position), a SimpleClassVisitor (interests fields + methods; projection oracle), the leanest visitor (fields Infallible, annotations / unknown attributes into (), default visit_instruction; max_stack / max_locals / exception table / line numbers / local variables against the projection), and ClassFile::accept into () and into the SimpleClassVisitor. One evaluation = one (stream, configuration) run through the real reader with the projection, position and masked-replay oracles; one correspondence case = one stream with its configurations (quick: a rotating fifth of them, thorough: two thirds) through the Coq model — event trace, stream positions, and the ROWS of every line-number / local-variable table and exception table handed to a code visitor (labels as bytecode offsets, names / descriptors / signatures by checksum against the pool entry the model's row designates; same rows, same order) — which also checks that the stream decodes to well-formed class structures (the hypothesis of the theorems). Replay: for every single-class stream the tree of duke::read_class is replayed (ClassFile::accept) into the tree builder (must give an equal tree), into the full recording visitor and into every configuration's recording visitor; oracle = the replayed trace equals the trace of reading the bytes with the same visitor (attribute-level events of one item as a multiset, members and instructions in order, contents by debug text), with the known class F20a (annotations attribute without annotations) recognised by a relaxed comparison PLUS the class file actually containing such an attribute (a LocalVariable(Type)Table without rows — the former F20b — is compared like everything else: an empty table reaches exactly the visitors interested in both tables, reading and replaying), and classes with a duplicated merged attribute counted as outside the hypothesis; one `replay-*` correspondence case per class = the recorded accept traces (quick: a rotating fifth of the configurations) against the Coq model of accept() in accept()'s own order, model tree builder succeeds iff duke's does, rebuilt tree equal. Edge inputs (stream kind `edge`): edits of generated classes and of corpus/C17 through fbh::classfile::raw — present-but-empty annotation lists at every level, empty InnerClasses / NestMembers / PermittedSubclasses / Record / Exceptions / MethodParameters, LineNumberTable / LocalVariableTable / LocalVariableTypeTable / StackMapTable without rows (alone and next to tables with rows), flags-only Deprecated / Synthetic, Signature at every level, an annotations attribute twice in one item, the ROWS of a Code's LocalVariableTable / LocalVariableTypeTable / LineNumberTable redistributed over several attributes in other orders (type table before table, one attribute per row shuffled, halves alternating, a type table between two tables; a type table synthesised where the class has none), a CLDC `StackMap` attribute with 0..3 entries in ascending / descending / mixed offset order; corpus/C17/replay/*.class are the witnesses of the Coq refutation theorems byte for byte. The CALLER's reader (stream kinds `concat*` and `decline*`: 2..4 class files, mostly small, some streams longer than 8 / 16 / 64 KiB): EVERY accept / decline pattern over the classes (declined first, last, in the middle, several in a row; accepted classes read without interests, by a random partial visitor or by the full visitor), each pattern read from a std::io::Cursor, from a Read + Seek reader written in the harness that keeps its own position from the calls it receives and counts them, and from the same reader handing out 1..5 bytes per read call; after EVERY call the position of the reader the harness owns is read again and must be the end of that class; all three readers must answer alike; the Cursor answers of every pattern go to the Coq model (positions and traces). Successive duke::read_class calls on one reader (three reader kinds) and ONE Vec<ClassFile> handed from read_class_multi call to call: each class equal to the class read alone, position behind it. The class header handed to visit_class is the same for every visitor. Parsed VALUES: for RuntimeVisible/InvisibleAnnotations (element_value trees of every kind, nested), RuntimeVisible/InvisibleTypeAnnotations at class, field, method and Code level (target_type and target_info from the TargetInfo* variant handed over, labels as bytecode offsets, type_path, annotation; all 23 target variants and all four path kinds occur; edge kind `type-annotation-values`: per location every admitted target type with indices 0 / 255 / 65534 / 65535, local-variable targets without rows / spanning the whole code / several rows, paths empty, of each kind, mixed and 255 entries long), AnnotationDefault, Signature, SourceFile and the attributes that are rows of pool indices (InnerClasses, EnclosingMethod, NestHost, NestMembers, PermittedSubclasses, ModuleMainClass, ModulePackages, Exceptions, MethodParameters) the recording visitors flatten what they were handed (duke's public Annotation / ElementValue / Object / InnerClass … values; strings as checksums, numeric constants as bits) and the Coq model parses the same value from the attribute body and the constant pool — compared on every event of every correspondence case, for reads and for replays, at class, field and method level; edge kind `annotation-values`: byte / char / short / boolean constants over WIDE int entries (narrowing), NaNs with payloads, extreme longs, empty / non-ASCII strings, empty arrays, annotations without pairs, repeated pair names, nesting 1..6 and exactly 64 deep (the reader's limit). If the full visitor cannot read more than a tenth of the streams the run reports that with the first such stream (otherwise such streams are outside the property and only counted). Non-trivial = duke reads every class of the stream with the full visitor; distinct by stream bytes.".into();
 
 	let mut classes = load_classes(&mut r);
 	if classes.is_empty() { anyhow::bail!("no class files found"); }
